@@ -94,7 +94,7 @@ def gen_schedules(tier, seed, workdir):
     def one(job):
         kind, genesis = job
         smalltp = genesis == "tp"
-        skew = {"skA": (3, 0), "skB": (0, 3)}.get(genesis, (0, 0))
+        skew = {"skA": (8, 0), "skB": (0, 8)}.get(genesis, (0, 0))
         variant = genesis
         genesis = genesis is True
         tag = kind + ("_g44" if genesis else "_tp" if smalltp else "_" + variant if skew != (0, 0) else "")
